@@ -142,12 +142,13 @@ def make_rdb(tmp):
 def check_ids(ctx, path, only=None):
     opts_cb = [None, '', 'cbU']
     opts_sn = [None, '', 'alt_l0', 'bad_l0', 'untyped', 'missing']
-    combos = list(itertools.product(opts_cb, [None, 'cbK'], opts_sn, [None, 'alt_l0', 'sdp_l0']))
+    # (an empty value in the URL query is dropped by parse_qsl; an empty KEYWORD reaches the `if not x` default)
+    combos = list(itertools.product(opts_cb, [None, '', 'cbK'], opts_sn, [None, '', 'alt_l0', 'sdp_l0']))
     if only is not None:
         q, k = only
         combos = [(q.get('capture_block_id'), k.get('capture_block_id'), q.get('stream_name'), k.get('stream_name'))]
     elif ctx.tier != 'thorough':
-        combos = ctx.rng.sample(combos, 40)
+        combos = ctx.rng.sample(combos, 60)
     st_vals = None
     if ctx.model_ok:
         ts0 = katsdptelstate.TelescopeState()
@@ -262,8 +263,8 @@ def build_flag_fixture(case, seed):
     T, F, B = case['T'], case['F'], 12
     cands = []
     for i, c in enumerate(case['candidates']):
-        fl = np.full((c['T'], c['F'], B), 0x10 + i + 1, np.uint8)
-        cands.append(dict(name=c['name'], flags=fl, type=c['type'], src=c['src'], chunks=(1, c['F'], B)))
+        fl = np.full((c['T'], c['F'], c.get('B', B)), 0x10 + i + 1, np.uint8)
+        cands.append(dict(name=c['name'], flags=fl, type=c['type'], src=c['src'], chunks=(1, c['F'], c.get('B', B))))
     own = np.full((T, F, B), 0x10, np.uint8)
 
     def hook(ts, cbid, stream):
@@ -319,7 +320,7 @@ def spec_of_mode(case, mode):
     cands = case['candidates']
     matching = [(i, c) for i, c in enumerate(cands)
                 if effective(case, c, 'type') == 'sdp.flags' and 'sdp_l0' in (effective(case, c, 'src') or [])] if upgrade else []
-    if any(c['F'] != F for _, c in matching):
+    if any(c['F'] != F or c.get('B', B) != B for _, c in matching):
         return 'ValueError'
     wi, win = matching[-1] if matching else (None, None)
     wT = win['T'] if win else T
@@ -462,6 +463,9 @@ def gen_flag_case(rng):
                           type=rng.choice(['sdp.flags', 'sdp.flags', 'sdp.flags', 'sdp.vis', None]),
                           src=rng.choice([['sdp_l0'], ['sdp_l0'], ['other'], ['other', 'sdp_l0'], []])))
     case = dict(T=T, F=F, candidates=cands)
+    for c in cands:
+        if c['F'] == F and rng.random() < 0.08:
+            c['B'] = 8                       # same channels, different number of baselines
     # placements: attributes of a candidate in its capture-block namespace (more specific than its stream namespace,
     # which then holds a different value), inherited from another archived stream, list of archived streams
     # defined in the capture block namespace with a less specific decoy in the global one
@@ -521,9 +525,9 @@ def check_flag_streams(ctx, case=None, n_modes=None):
     ctx.count('flag_streams:%d' % len(case['candidates']))
     # how often the namespace placement of the candidates' attributes decides the outcome
     plain = dict(T=case['T'], F=case['F'],
-                 candidates=[{k: c[k] for k in ('name', 'T', 'F', 'type', 'src')} for c in case['candidates']])
+                 candidates=[{k: c[k] for k in ('name', 'T', 'F', 'B', 'type', 'src') if k in c} for c in case['candidates']])
     m0 = dict(how='ctor', store='given', upgrade=True, n_ts=None)
-    if case.get('archived_decoy') is not None or any(set(c) - {'name', 'T', 'F', 'type', 'src'} for c in case['candidates']):
+    if case.get('archived_decoy') is not None or any(set(c) - {'name', 'T', 'F', 'B', 'type', 'src'} for c in case['candidates']):
         ctx.count('flag_layout:varied')
         dec = dict(plain, candidates=[c for c in plain['candidates'] if c['name'] in (case.get('archived_decoy') or [])]) \
             if case.get('archived_decoy') is not None else plain
@@ -562,9 +566,10 @@ def run(ctx):
     fixed = dict(T=3, F=4, candidates=[dict(name='fl0', T=5, F=4, type='sdp.flags', src=['sdp_l0'])])
     for how, store in (('ctor', 'none'), ('from_url', 'none'), ('katdal.open', 'none'), ('from_url', 'auto')):
         check_open(ctx, fixed, dict(how=how, store=store, upgrade=None, n_ts=None, query={}, dataset=True))
-    bad = dict(T=3, F=4, candidates=[dict(name='fl0', T=3, F=6, type='sdp.flags', src=['sdp_l0'])])
-    for how, store in (('ctor', 'none'), ('katdal.open', 'none'), ('katdal.open', 'auto')):
-        check_open(ctx, bad, dict(how=how, store=store, upgrade=None, n_ts=None, query={}, dataset=True))
+    for bad in (dict(T=3, F=4, candidates=[dict(name='fl0', T=3, F=6, type='sdp.flags', src=['sdp_l0'])]),
+                dict(T=3, F=4, candidates=[dict(name='fl0', T=3, F=4, B=8, type='sdp.flags', src=['sdp_l0'])])):
+        for how, store in (('ctor', 'none'), ('katdal.open', 'none'), ('katdal.open', 'auto')):
+            check_open(ctx, bad, dict(how=how, store=store, upgrade=None, n_ts=None, query={}, dataset=True))
 
 
 def replay(ctx, doc):
